@@ -393,13 +393,13 @@ func main() {
 		}
 	})
 	r.Assumption = []string{
-		"the include relation is read from the group comments of the generated dialect.go files",
+		"type identity of included messages is decided by (name, id) across dialects; group comments of dialect.go are an additional hint only when they name a shipped package",
 		"golden CRC_EXTRA: 222 double-sourced standard messages",
 	}
 	r.Finish(map[string]any{
 		"evaluations":         evals.N(),
 		"distinct_nontrivial": distinct.N(),
-		"rule":                "complete enumeration of 19 dialect packages: per message (id uniqueness, codec lookup, size limit, CRC_EXTRA vs spec and golden), id lookups (0..69999 + neighbours quick / all 2^24 thorough), include-group type identity for every listed message, all enum constants across packages, all subsets of a 6-message pool x injected duplicate / malformed struct at every position; distinct = (dialect, message) pairs",
+		"rule":                "complete enumeration of 19 dialect packages: per message (id uniqueness, codec lookup, size limit, CRC_EXTRA vs spec and golden), id lookups (0..69999 + neighbours quick / all 2^24 thorough), type identity for every listed message (same name and id = same Go type), all enum constants across packages, all subsets of a 6-message pool x injected duplicate / malformed struct at every position; distinct = (dialect, message) pairs",
 		"dialect_entries":     len(enumreg.Entries),
 		"constants":           len(enumreg.Consts),
 		"user_dialects":       len(ucases),
